@@ -5,7 +5,11 @@
 #include <sstream>
 #include <csignal>
 #include <unistd.h>
+#include <cstdio>
+#include <cstdlib>
 
+#include "lra_theory.h"
+#include "lra_constraint.h"
 #include "flaw.h"
 #include "resolver.h"
 #include "atom_flaw.h"
@@ -112,6 +116,19 @@ namespace oratio_verif
       return o.str();
     }
 
+    // debugging aid (VERIF_TRACE): what the LRA assertion literals and slack variables stand for
+    static void lra_meaning(solver &s)
+    {
+      for (const auto &[k, l] : s.get_lra_theory().s_asrts)
+        fprintf(stderr, "TRC ASRT %c%zu : %s\n", sign(l) ? '+' : '-', variable(l), k.c_str());
+      for (const auto &[k, v] : s.get_lra_theory().exprs)
+        fprintf(stderr, "TRC EXPR x%zu = %s\n", v, k.c_str());
+      for (const auto &[v, r] : s.get_lra_theory().tableau)
+        fprintf(stderr, "TRC ROW x%zu = %s\n", v, to_string(r->l).c_str());
+      for (size_t v = 0; v < s.get_lra_theory().vals.size(); ++v)
+        fprintf(stderr, "TRC VAR x%zu val=%s lb=%s ub=%s\n", v, to_string(s.get_lra_theory().value(v)).c_str(), to_string(s.get_lra_theory().lb(v)).c_str(), to_string(s.get_lra_theory().ub(v)).c_str());
+    }
+
     static std::string graph(solver &s)
     {
       auto val = [&s](const smt::lit &l)
@@ -205,6 +222,26 @@ static std::string unhex(const std::string &h)
   return s;
 }
 
+static solver *g_slv = nullptr;
+static void trc(const char *k, const std::vector<smt::lit> &lits)
+{ // no heap allocation here: the search follows pointer-hash orders, the trace must not move the heap
+  char buf[4096];
+  int n = snprintf(buf, sizeof(buf), "TRC %s %zu :", k, g_slv->get_sat_core().decision_level());
+  for (const auto &l : lits)
+    if (n < 4000)
+      n += snprintf(buf + n, sizeof(buf) - n, " %c%zu", sign(l) ? '+' : '-', variable(l));
+  if (n < 4000)
+    n += snprintf(buf + n, sizeof(buf) - n, " | dec:");
+  for (const auto &l : g_slv->get_sat_core().get_decisions())
+    if (n < 4000)
+      n += snprintf(buf + n, sizeof(buf) - n, " %c%zu", sign(l) ? '+' : '-', variable(l));
+  buf[n++] = '\n';
+  ssize_t r = write(2, buf, n);
+  (void)r;
+}
+static void on_new(void *, const std::vector<smt::lit> &lits) { trc("N", lits); }
+static void on_rec(void *, const std::vector<smt::lit> &lits) { trc("R", lits); }
+
 int main(int argc, char *argv[])
 {
   std::ios::sync_with_stdio(false);
@@ -227,6 +264,12 @@ int main(int argc, char *argv[])
     try
     {
       solver *s = new solver(); // deliberately not destroyed when something goes wrong below
+      if (getenv("VERIF_TRACE"))
+      {
+        g_slv = s;
+        s->get_sat_core().verif_new_clause = on_new;
+        s->get_sat_core().verif_record = on_rec;
+      }
       try
       {
         s->read(unhex(h));
@@ -247,7 +290,14 @@ int main(int argc, char *argv[])
           res = "T " + js + " \tTL " + tl + " \tJG " + oratio_verif::access::graph(*s) + " \tST " + oratio_verif::access::strings(*s) + " \tTI " + oratio_verif::access::registry(*s);
         }
         else
+        {
           res = "F";
+          if (getenv("VERIF_TRACE"))
+          {
+            oratio_verif::access::lra_meaning(*s);
+            fprintf(stderr, "TRC GRAPH %s\n", oratio_verif::access::graph(*s).c_str());
+          }
+        }
         delete s;
       }
       catch (const std::exception &e)
